@@ -165,11 +165,13 @@ def run(ctx):
     # subscription identifier range
     vs = [ctx.fn('subscribe::validate_subscribe_packet_outbound'), ctx.fn('subscribe::validate_subscribe_packet_outbound_internal')]
     rng = False
+    ZERO = r'^\(packet\.subscription_identifier@Some\.0 == 0\)$'
+    TOOBIG = r'^\(MAXIMUM_VARIABLE_LENGTH_INTEGER as u32 < packet\.subscription_identifier@Some\.0\)$|^\(268435455 < packet\.subscription_identifier@Some\.0\)$'
     for v in vs:
-        for b in prims.err_blocks(v):
-            gs = guard_strs(v, b)
-            if any('subscription_identifier' in g and ('== 0' in g or '< ' in g or '<= ' in g) for g in gs):
-                rng = True
+        if prims.edge_nodes_matching(v, [ZERO]) and prims.edge_nodes_matching(v, [TOOBIG]):
+            for b in prims.err_blocks(v):
+                if guarded_any(v, b, [ZERO, TOOBIG]):
+                    rng = True
     ctx.ob(rng, 'SUBSCRIBE: a subscription identifier outside 1..268435455 is rejected', 'static|Subscribe|subid-range', loc=vs[0].loc(),
            detail=None if rng else 'no validator compares packet.subscription_identifier with 0 or the variable-byte-integer maximum')
 
